@@ -318,6 +318,7 @@ def render(repo=None):
     for rel in PYX:
         L.append(f"  src/hydrodiy/{rel}  sha256 {hashes[rel]}")
     L.append("-/")
+    L.append("set_option linter.unusedVariables false")
     L.append("namespace HydroVerif.Generated.PyxSpec")
     L.append("")
     L.append("/-- the value fits a C `int` -/")
